@@ -10,9 +10,11 @@ EXTENDS Gossip
 
 CONSTANTS Victims,       \* nodes that receive hostile datagrams
           Members,       \* member names the adversary mentions (may include unknown ones)
+          HKeys,         \* keys the adversary writes (may coincide with honest keys or not)
           HVals,         \* small naturals used for versions / watermarks / heartbeats
           MaxOps,        \* longest op stream
           MaxHostile,    \* hostile datagrams per behaviour
+          WalkLen,       \* length at which a simulated walk is exported (simulation configs)
           MaxDepth,      \* longest behaviour explored (honest prefix + hostile datagrams)
           StrictSetMax   \* TRUE: decoder refuses SetMaxVersion after key-values (fix F-3)
 
@@ -23,8 +25,8 @@ HView == hvars
 HInit == Init /\ hostile = 0
 
 Ops == {[o |-> "Node", x |-> x, gc |-> g, from |-> f] : x \in Members, g \in HVals, f \in HVals}
-       \cup {[o |-> "KV", k |-> "k1", v |-> v, ver |-> n, st |-> s] :
-               v \in {"h"}, n \in HVals \ {0}, s \in {"Set", "Del"}}
+       \cup {[o |-> "KV", k |-> k, v |-> v, ver |-> n, st |-> s] :
+               k \in HKeys, v \in {"h"}, n \in HVals \ {0}, s \in {"Set", "Del"}}
        \cup {[o |-> "SetMax", max |-> n] : n \in HVals}
 OpStreams == UNION {[1..n -> Ops] : n \in 0..MaxOps}
 
@@ -69,5 +71,7 @@ C09_NoPanic == ~panic
 C09_NoPanicStep ==
   [][ Resetting \/ (LastAct.a = "Inject" => "panic" \notin DOMAIN LastAct) ]_<<hvars, hist>>
 
+\* simulation mode: one exported behaviour per random walk, printed when the walk reaches WalkLen
+HEmitWalk == (Len(hist) = WalkLen) => PrintT("EDGE " \o ToJson([steps |-> hist, expect |-> [nodes |-> Views]]))
 HEmitEdge == PrintT("EDGE " \o ToJson([steps |-> hist', expect |-> [nodes |-> Views']]))
 ===============================================================================
